@@ -232,6 +232,8 @@ C07_ReverseFlag ==
       /\ Len(Q.res) = Len(R.res)
       /\ \A i \in 1..Len(R.res) : Q.res[i].z = R.res[i].z /\ RevOf(R.res[i].polys, Q.res[i].polys)
 
+(* a call must not rewrite the polygon it is given: the same value snapped again would then be another input *)
+C07_InputUntouched == ~R.inmut
 C08_LevelLocal ==
   \A j \in Later : LET Q == Trace[j] IN
     (Q.poly = R.poly /\ SameFlagsExcept(Q, "none") /\ Ok /\ Q.out = "ok") =>
